@@ -91,7 +91,7 @@ def ensure_built(need_hosts=True):
                 have = json.load(open(stamp_p))
             except Exception:
                 have = {}
-        ok = (have.get("repo") == want["repo"] and have.get("harness") == want["harness"]
+        ok = (have.get("repo") == want["repo"] and have.get("harness") == want["harness"] and not have.get("failed_tools")
               and os.path.exists(os.path.join(BIN, "pigeon"))
               and all(os.path.exists(os.path.join(HOSTS, v)) for v in ALL_VARIANTS))
         if ok:
@@ -109,7 +109,19 @@ def ensure_built(need_hosts=True):
         log("building harness tools")
         rc, out, _ = run(["go", "build", "-o", BIN + "/", "./cmd/..."], cwd=HARNESS, env=goenv(True), check=False)
         if rc != 0:
-            raise BuildError("harness tools do not build (does /repo's ast/builder API still compile?):\n" + out[-3000:])
+            # build the tools one by one: a tool that does not build only matters to the checks that use it
+            failed = {}
+            for d in sorted(os.listdir(os.path.join(HARNESS, "cmd"))):
+                old_bin = os.path.join(BIN, d)
+                if os.path.exists(old_bin):
+                    os.remove(old_bin)
+                rc1, out1, _ = run(["go", "build", "-o", BIN + "/", "./cmd/" + d], cwd=HARNESS, env=goenv(True), check=False)
+                if rc1 != 0:
+                    failed[d] = out1[-1500:]
+            want["failed_tools"] = sorted(failed)
+            core_tools = [x for x in ("pvgen", "pvrun", "pvhostgen", "pvshrink", "pvshow") if x in failed]
+            if core_tools:
+                raise BuildError("harness tools do not build (does /repo's ast/builder API still compile?):\n" + "\n".join(failed[x] for x in core_tools))
         if need_hosts:
             log("generating the 16 host parsers")
             rc, out, _ = run([os.path.join(BIN, "pvhostgen"), "-pigeon", os.path.join(BIN, "pigeon"),
@@ -289,7 +301,7 @@ def run_impl(cases_file, out_file, j=NCPU):
     return summary
 
 
-def run_model_lines(header, case_lines, timeout=900):
+def run_model_lines(header, case_lines, timeout=900, spec=False):
     """Run the Lean driver over the cases, NCPU-way parallel, order preserving.
     A chunk that times out is re-run case by case; a case that times out alone yields 'res <id> modeltimeout'."""
     if not case_lines:
@@ -300,7 +312,7 @@ def run_model_lines(header, case_lines, timeout=900):
 
     def one(chunk, to):
         data = (header + "\n" + "\n".join(chunk) + "\n").encode()
-        p = subprocess.run(["/bin/sh", "-c", "ulimit -s unlimited 2>/dev/null; exec " + DRIVER], input=data,
+        p = subprocess.run(["/bin/sh", "-c", "ulimit -s unlimited 2>/dev/null; exec " + DRIVER + (" --spec" if spec else "")], input=data,
                            stdout=subprocess.PIPE, stderr=subprocess.PIPE, timeout=to)
         lines = p.stdout.decode().splitlines()
         return lines, p.returncode
@@ -317,9 +329,9 @@ def run_model_lines(header, case_lines, timeout=900):
             cid = c.split(" ", 2)[1]
             try:
                 lines, rc = one([c], 60)
-                res.append(lines[0] if lines else "res %s modelcrash" % cid)
+                res.append(lines[0] if lines else "%s %s modelcrash" % ("spec" if spec else "res", cid))
             except subprocess.TimeoutExpired:
-                res.append("res %s modeltimeout" % cid)
+                res.append("%s %s modeltimeout" % ("spec" if spec else "res", cid))
         return res
 
     with ThreadPoolExecutor(max_workers=NCPU) as ex:
@@ -527,4 +539,89 @@ def write_replay(prop, name, obj):
     p = os.path.join(d, name + ".json")
     with open(p, "w") as fh:
         json.dump(obj, fh, indent=1)
+    return p
+
+
+def parse_spec(line):
+    tk = Tok(line.split(" "))
+    assert tk.next() == "spec"
+    r = {"id": int(tk.next())}
+    k = tk.next()
+    r["kind"] = k
+    if k not in ("ok", "fail", "panic"):
+        return r
+    if k == "panic":
+        pk = tk.next()
+        r["val"] = (pk, tk.next())
+    else:
+        r["val"] = p_val(tk)
+    r["off"], r["line"], r["col"] = tk.nat(), tk.nat(), tk.nat()
+    n = tk.nat()
+    r["errs"] = [tk.hexs().decode("utf-8", "replace") for _ in range(n)]
+    r["state"] = p_store(tk)
+    r["glob"] = p_store(tk)
+    n = tk.nat()
+    tr = []
+    for _ in range(n):
+        assert tk.next() == "ev"
+        ev = {"blk": tk.nat(), "calli": tk.nat(), "line": tk.nat(), "col": tk.nat(), "off": tk.nat(), "text": tk.hexs()}
+        ev["pt"] = (tk.nat(), tk.nat(), tk.nat())
+        na = tk.nat()
+        ev["args"] = [p_val(tk) for _ in range(na)]
+        ev["state"] = p_store(tk)
+        ev["glob"] = p_store(tk)
+        tr.append(ev)
+    r["trace"] = tr
+    return r
+
+
+NOMATCH = ": no match found, expected: "
+
+
+def spec_compare(i, s, fields):
+    """implementation result i (parse_result) against the specification's result s (parse_spec) on the given
+    aspects; returns None or a text describing the first deviation"""
+    if s["kind"] not in ("ok", "fail", "panic") or i["kind"] not in ("ret", "panic"):
+        return None
+    nm = [e for e in i["errs"] if NOMATCH in e]
+    ierrs = [e for e in i["errs"] if NOMATCH not in e]
+    if s["kind"] == "panic":
+        if i["kind"] == "panic":
+            return None if i["val"] == s["val"] else "panic payload %r, specification %r" % (i["val"], s["val"])
+        return None if i["val"] is None else "a panic was contained but a value was returned"
+    if i["kind"] != "ret":
+        return "a panic escaped where the specification returns normally"
+    if "match" in fields:
+        if s["kind"] == "ok" and nm:
+            return "the parse fails (%s) where the specification matches a prefix of %d bytes" % (nm[0][:80], s["off"])
+        if s["kind"] == "fail" and not s["errs"] and not nm:
+            return "the parse succeeds where the specification finds no match"
+        if s["kind"] == "ok" and i["off"] != s["off"]:
+            return "%d bytes consumed, specification %d" % (i["off"], s["off"])
+    if "val" in fields and repr(i["val"]) != repr(s["val"]):
+        return "value %s, specification %s" % (repr(i["val"])[:200], repr(s["val"])[:200])
+    if "errs" in fields and sorted(set(ierrs)) != sorted(set(s["errs"])):
+        return "recorded errors %r, specification %r" % (ierrs[:4], s["errs"][:4])
+    if "trace" in fields:
+        if len(i["trace"]) != len(s["trace"]):
+            return "%d code-block invocations, specification %d" % (len(i["trace"]), len(s["trace"]))
+        for a, b in zip(i["trace"], s["trace"]):
+            for k in ("blk", "line", "col", "off", "text", "args"):
+                if repr(a[k]) != repr(b[k]):
+                    return "block %d invocation %d sees %s=%s, specification %s" % (a["blk"], a["calli"], k, repr(a[k])[:120], repr(b[k])[:120])
+    if "stores" in fields:
+        for a, b in zip(i["trace"], s["trace"]):
+            if repr(a["state"]) != repr(b["state"]) or repr(a["glob"]) != repr(b["glob"]):
+                return "block %d invocation %d sees stores %s / %s, specification %s / %s" % (a["blk"], a["calli"], repr(a["state"])[:100], repr(a["glob"])[:100], repr(b["state"])[:100], repr(b["glob"])[:100])
+        if repr(i["glob"]) != repr(s["glob"]):
+            return "final globalStore %s, specification %s" % (repr(i["glob"])[:150], repr(s["glob"])[:150])
+        if s["kind"] == "ok" and repr(i["state"]) != repr(s["state"]):
+            return "final state %s, specification %s" % (repr(i["state"])[:150], repr(s["state"])[:150])
+    return None
+
+
+def need_tool(name):
+    p = os.path.join(BIN, name)
+    if not os.path.exists(p):
+        raise BuildError("harness tool %s does not build against /repo's current API" % name)
     return p
